@@ -379,7 +379,7 @@ theorem pushToListener (h : IdxInv k) (child : Nat) (l : SockAddr) : IdxInv (k.p
     · exact h
     · split
       · exact h
-      · exact h.setSock _ _
+      · exact (h.setSock _ _).congr rfl rfl (fun _ hfd => hfd)
 
 theorem handleOnConnection (cfg : Cfg) (h : IdxInv k) (fd : Nat) (l r : SockAddr) (s : Seg) :
     IdxInv (Kernel.handleOnConnection cfg k fd l r s) := by
